@@ -17,7 +17,7 @@ def run(v):
                                        "extras": ("help",)})
     q = v.tier == "quick"
     cov = merge_cov(cov, run_tree_groups(v, SEED + 880, 12 if q else 60, 4 if q else 5, 1500 if q else 12000, ("alt", "adj"),
-                                         cmdline_sig.signature, ledger_every=3 if q else 1), "tree_groups")
+                                         cmdline_sig.signature, ledger_every=3 if q else 1, driver_n=4000 if q else 100000), "tree_groups")
     cov["rule"] = ("command trees of depth <= 3 with aliases, short aliases, optional commands and leaf positionals; all lines up "
                    "to maxlen incl. deeper items left of their command name, unknown commands, `--` before a command name, "
                    "help after every command name; ScopeAfterCommand checked by TLC; plus commands whose own level holds choices and adjacent "
